@@ -107,6 +107,8 @@ def operator_model(rep, rec, path, U, m, refs, den):
     for op in symbols:
         for arity in (1, 2, 3):
             status = None
+            mismatches = []
+            all_swapped = True      # every result equals "quantify u over the variables of v"
             for fu, fv, fw in _valuations(U, op, arity):
                 case = dict(wrapper=name, op=op, arity=arity, u=U.fmt(fu),
                             v=None if fv is None else U.fmt(fv),
@@ -130,12 +132,24 @@ def operator_model(rep, rec, path, U, m, refs, den):
                             name, op, arity), case)
                     status = 'accepted-mismatch'
                     break
+                if op in QUANT and fv is not None:
+                    sw = U.quantify(fu, sorted(U.support(fv)), op in ('\\A', 'forall'))
+                    if got_mask != sw:
+                        all_swapped = False
+                else:
+                    all_swapped = False
                 if got_mask != want:
-                    rec('operator:%s:%s' % (name, _group(op)),
-                        '%s: apply(%r) computes %s where dd.bdd computes %s' % (
-                            name, op, U.fmt(got_mask), U.fmt(want)), case)
+                    mismatches.append(('%s: apply(%r) computes %s where dd.bdd computes %s' % (
+                        name, op, U.fmt(got_mask), U.fmt(want)), case))
                 elif fu not in (0, U.full) and (fv is None or fv not in (0, U.full)):
                     rep.add('nontrivial')
+            if mismatches:
+                sig = 'operator:%s:%s' % (name, _group(op))
+                if all_swapped:
+                    # precise class: the two operands are passed in each other's place
+                    sig += ':operand-roles-swapped'
+                for what, case in mismatches[:2]:
+                    rec(sig, what, case)
             if status == 'accepted':
                 accepted.add(op)
                 rep.mark('model_states', (name, op, arity))
